@@ -81,7 +81,8 @@ def build_events():
     withs = [{"vb": 5}, {"a.b": 5}, {"w.new": 5}, {"x_y": 5}, {"vb": 5, "a.c": 6}]
     # inside the block: nothing / a disjoint key / the same leaf through a plain set / the other entry points that write
     # configuration (update_defaults on the first key of the block, refresh)
-    inners = [None, ("set", "q", 1), "same", "dflt_same", ("refresh",)]
+    # ... a nested with-block (same key / another key), and an exception raised inside the block (exit must still restore)
+    inners = [None, ("set", "q", 1), "same", "dflt_same", ("refresh",), ("with", {"vb": 6}, None), ("with", {"a.b": 6}, "same"), "raise"]
     for w in withs:
         for i in inners:
             if i == ("refresh",) and any(k.startswith("w.") for k in w):
@@ -287,6 +288,10 @@ def observe_and_compare(I, M, where, fails):
         fails.append(({"relation": "one_entry_per_key"}, f"{where}: the same key is stored under two spellings: {r}"))
 
 
+class _InsideBlock(Exception):
+    pass
+
+
 def apply_event(I, M, ev, fails, where):
     """Apply one event to implementation and model; append (cls, msg) to fails. An exception raised by the library
     for a well-formed request (anything but a rejected device) is a verdict, not a harness error."""
@@ -383,7 +388,9 @@ def _apply_event(I, M, ev, fails, where):
                 d = d[p_]
             record.append(("insert", missing, None) if missing is not None else ("replace", parts, copy.deepcopy(d)))
             M.set(k, v)
-        if inner == "same":
+        if inner == "raise":
+            inner_ev = None
+        elif inner == "same":
             inner_ev = ("set", keys[0], 9)
         elif inner == "dflt_same":
             nested = 10
@@ -399,8 +406,12 @@ def _apply_event(I, M, ev, fails, where):
                     g = ("ok", norm_tree(got[1])) if got[0] == "ok" else got
                     if typed(g) != typed(model_get(M, k)):
                         fails.append(({"relation": "with_sets_inside"}, f"{where}: inside `with set({w}, **{kw})` get({k!r}) = {got!r}, last writer says {model_get(M, k)!r}"))
+                if inner == "raise":
+                    raise _InsideBlock()
                 if inner_ev is not None:
                     _apply_event(I, M, inner_ev, fails, where + f" inside with set({w})")
+        except _InsideBlock:
+            pass  # the exception left the block through __exit__, which must have restored the entries (checked below)
         except TypeError as e:
             fails.append(({"relation": "with_protocol"}, f"{where}: `with config.set({w}, **{kw})` raised {e!r}"))
             # the model follows what a failed `with` leaves behind: the plain assignments
